@@ -126,6 +126,9 @@ func check(args []string) int {
 				rules.Thorough(c, pr)
 			}
 		}()
+		if *tier == "thorough" {
+			sensitivity(c, *repo, *verif, id, known)
+		}
 		res := c.Finish(*verif, known, seed, st, pr.Assumptions, pr.Explanation)
 		for _, l := range res.Lines {
 			fmt.Println(l)
